@@ -194,5 +194,7 @@ void solver_t::more_precise(const scalar_t epsilon_factor)
 {
     assert(0.0 < epsilon_factor && epsilon_factor < 1.0);
 
-    parameter("solver::epsilon") = parameter("solver::epsilon").value<scalar_t>() * epsilon_factor;
+    // NB: the product can underflow to zero, which is not a valid precision!
+    parameter("solver::epsilon") = std::max(parameter("solver::epsilon").value<scalar_t>() * epsilon_factor,
+                                            std::numeric_limits<scalar_t>::min());
 }
